@@ -9,21 +9,26 @@ From TP Require Import Model.Prelude Extracted Model.Toxics Model.Timed Proofs.G
 Theorem C20_exact : forall n sigma l l',
   sched_run l sigma = Some l' -> counters_ok n l -> counters_ok n l'.
 Proof. exact run_counters. Qed.
+Print Assumptions C20_exact.
 
 Theorem C20_init : forall chain src draws sd,
   counters_ok (zlen (unread (link_init_slow chain src draws sd))) (link_init_slow chain src draws sd).
 Proof. intros. split; reflexivity. Qed.
+Print Assumptions C20_init.
 
 (** counters only ever receive non-negative additions, each link adding once per counter *)
 Theorem C20_monotone : forall (l : link), 0 <= zlen (sink_bytes l) /\ 0 <= zlen (unread l).
 Proof. intros; split; apply zlen_nonneg. Qed.
+Print Assumptions C20_monotone.
 
 (** what is added to the sent counter, and when (extracted from link.write): only on a clean end *)
 Theorem C20_sent_only_without_error : sent_counted_on_error = false.
 Proof. reflexivity. Qed.
+Print Assumptions C20_sent_only_without_error.
 
 Theorem C20_labels : metric_labels = ["direction"; "proxy.Name"; "proxy.Listen"; "proxy.Upstream"]%string.
 Proof. reflexivity. Qed.
+Print Assumptions C20_labels.
 
 (** ---- which series the bytes go to (labels). [Model.Metrics]: link.Start takes the label values
     from the proxy when the link starts ([metric_labels] above is that list, regenerated from
@@ -35,6 +40,7 @@ Theorem C20_start_takes_current_labels : forall s c p listen up,
   zassoc p (m_cfg s) = Some (listen, up) ->
   zassoc c (m_open (m_step s (MStart c p))) = Some (listen, p, up).
 Proof. exact start_takes_current_labels. Qed.
+Print Assumptions C20_start_takes_current_labels.
 
 (** ... and keeps them whatever happens before it ends: in-place updates of its proxy, other
     proxies, other connections *)
@@ -43,6 +49,7 @@ Theorem C20_labels_fixed_at_start : forall s e c lab,
   (forall p, e <> MStart c p) -> (forall a b c' d, e <> MEnd c a b c' d) ->
   zassoc c (m_open (m_step s e)) = Some lab.
 Proof. exact labels_fixed_at_start. Qed.
+Print Assumptions C20_labels_fixed_at_start.
 
 (** when it ends, its four counts are added to exactly the four series with those labels; every
     series with other labels is untouched *)
@@ -55,18 +62,22 @@ Theorem C20_end_exact : forall s c urx utx drx dtx lab,
   counter s' (true, true, lab) = counter s (true, true, lab) + dtx /\
   (forall k, snd k <> lab -> counter s' k = counter s k).
 Proof. exact end_exact. Qed.
+Print Assumptions C20_end_exact.
 
 (** no other event moves any counter; no connection is counted twice; no series ever decreases *)
 Theorem C20_only_end_counts : forall s e k,
   (forall c a b c' d, e <> MEnd c a b c' d) -> counter (m_step s e) k = counter s k.
 Proof. exact only_end_counts. Qed.
+Print Assumptions C20_only_end_counts.
 
 Theorem C20_counted_once : forall s c a b c' d a2 b2 c2 d2 k,
   counter (m_step (m_step s (MEnd c a b c' d)) (MEnd c a2 b2 c2 d2)) k = counter (m_step s (MEnd c a b c' d)) k.
 Proof. exact counted_once. Qed.
+Print Assumptions C20_counted_once.
 
 Theorem C20_never_decreases : forall h s k, Forall ev_nonneg h -> counter s k <= counter (fold_left m_step h s) k.
 Proof. exact run_monotone. Qed.
+Print Assumptions C20_never_decreases.
 
 (** non-vacuity: an update between two connections splits their bytes over two label sets *)
 Example C20_labels_example :
